@@ -21,6 +21,7 @@ pub enum Site {
     PackageElements,
     PackageBuilderElements,
     PathSegments,
+    PathSegmentsRooted,
     MethodArgs,
     ArgIndex,
     LocalIndex,
@@ -47,10 +48,11 @@ pub enum Site {
     RqscResources,
 }
 
-pub const SITES: [Site; 27] = [
+pub const SITES: [Site; 28] = [
     Site::PackageElements,
     Site::PackageBuilderElements,
     Site::PathSegments,
+    Site::PathSegmentsRooted,
     Site::MethodArgs,
     Site::ArgIndex,
     Site::LocalIndex,
@@ -81,7 +83,7 @@ impl Site {
     /// largest value the encoded field can represent for this site
     pub fn max(self) -> u64 {
         match self {
-            Site::PackageElements | Site::PackageBuilderElements | Site::PathSegments => 255,
+            Site::PackageElements | Site::PackageBuilderElements | Site::PathSegments | Site::PathSegmentsRooted => 255,
             Site::MethodArgs => 7,
             Site::ArgIndex => 6,
             Site::LocalIndex => 7,
@@ -115,7 +117,7 @@ impl Site {
         let m = self.max();
         match self {
             Site::PackageElements | Site::PackageBuilderElements => (vec![0, 1, 254, 255], vec![256, 257, 300, 511, 512, 65_536]),
-            Site::PathSegments => (vec![1, 2, 3, 254, 255], vec![256, 257, 258, 512, 1000]),
+            Site::PathSegments | Site::PathSegmentsRooted => (vec![1, 2, 3, 254, 255], vec![256, 257, 258, 259, 260, 261, 511, 512, 513, 1000, 1279, 1280]),
             Site::MethodArgs => (vec![0, 7], vec![8, 9, 15, 16, 255]),
             Site::ArgIndex => (vec![0, 6], vec![7, 8, 255]),
             Site::LocalIndex => (vec![0, 7], vec![8, 9, 255]),
@@ -221,8 +223,8 @@ pub fn exercise(site: Site, v: u64) -> Outcome {
                 };
                 Outcome::Returned(framing)
             }
-            Site::PathSegments => {
-                let p = PathCase { rooted: v % 2 == 0, segs: (0..v).map(|i| format!("S{:03}", i % 1000)).collect() };
+            Site::PathSegments | Site::PathSegmentsRooted => {
+                let p = PathCase { rooted: site == Site::PathSegmentsRooted, segs: (0..v).map(|i| format!("S{:03}", i % 1000)).collect() };
                 let mut b = Vec::new();
                 aml::Path::new(&p.text()).to_aml_bytes(&mut b);
                 let framing = match crate::props::c09::decode_namestring(&b) {
@@ -422,7 +424,7 @@ pub fn check(site: Site, v: u64) -> Option<Violation> {
 }
 
 pub fn run(ctx: &Ctx) {
-    ctx.set_rule("for every encoded count/length field with a caller-controlled source (27 sites: package / package-builder elements, path segments, method arguments, Arg/Local index, named and reserved field widths, PkgLength >= 2^28 through the encoder and (thorough) a real 256 MiB buffer, word/dword/qword address ranges, PPTT private resources, CXIMS maps, HMAT SMBIOS handles, RIMT wires / id mappings / platform name, VIOT node count and handle offset, SLIT localities, RHCT ISA string and hart-info offsets, RQSC vendor data and resources): values at the field maximum (must be accepted and framed correctly, judged by the C03/C06 oracles) and above it (maximum+1, +2, far beyond; must panic), in this build and, through a second binary, in the build with the other overflow-check setting. A value above the maximum that returns bytes is a violation; the framing oracles then state which field disagrees. Non-trivial = a case above the field maximum (the at-maximum cases are controls); distinct = distinct (site, value, build).");
+    ctx.set_rule("for every encoded count/length field with a caller-controlled source (28 sites: package / package-builder elements, path segments, method arguments, Arg/Local index, named and reserved field widths, PkgLength >= 2^28 through the encoder and (thorough) a real 256 MiB buffer, word/dword/qword address ranges, PPTT private resources, CXIMS maps, HMAT SMBIOS handles, RIMT wires / id mappings / platform name, VIOT node count and handle offset, SLIT localities, RHCT ISA string and hart-info offsets, RQSC vendor data and resources): values at the field maximum (must be accepted and framed correctly, judged by the C03/C06 oracles) and above it (maximum+1, +2, far beyond; must panic), in this build and, through a second binary, in the build with the other overflow-check setting. A value above the maximum that returns bytes is a violation; the framing oracles then state which field disagrees. Non-trivial = a case above the field maximum (the at-maximum cases are controls); distinct = distinct (site, value, build).");
     ctx.assume("sizes that need >= 4 GiB of real data (u32 table Length overflow, SLIT with 65535 localities) are out of reach and not claimed");
     ctx.assume(&format!("this process: overflow checks {}", if overflow_checks_on() { "ON" } else { "OFF" }));
     let mut jobs: Vec<(Site, u64)> = Vec::new();
@@ -492,8 +494,6 @@ pub fn replay(case: &serde_json::Value) -> Vec<Violation> {
     let name = case["site"].as_str().unwrap_or("");
     let v = case["value"].as_u64().unwrap_or(0);
     let want_profile = case["profile"].as_str().unwrap_or("");
-    if !want_profile.is_empty() && want_profile != build_profile() {
-        println!("note: this case was found in the '{}' build; this binary is '{}'", want_profile, build_profile());
-    }
+    let _ = want_profile; // informational: both build profiles replay every stored case
     SITES.iter().filter(|s| s.name() == name).filter_map(|s| check(*s, v)).collect()
 }
